@@ -18,8 +18,8 @@ CHECKS = {
    note="Sampling evidence only. Cooperative locks admit barging, a superset of real mutex schedules. Export/import continuity of record numbers is C19's business; the 2^48 limit is not reached.",
    technique="deterministic simulation: seeded schedule exploration + fault injection with an independent wire monitor"),
  "C12": dict(level="fault_enumeration", design="§5 C12",
-   text="The real sender-side fragmentation and the real reassembly buffer are joined by a one-link simulated network that reorders, duplicates and interleaves fragments; every partition x permutation x single duplicate is enumerated for short messages, longer multi-message cases are sampled (MTU 1..1500, lengths to 20000, zero-length fragments, several fragments per record). A bitmap reassembler decides after every arrival what may and must surface.",
-   note="Component-level arena: the fragment buffer and Conn.fragmentHandshake run real code, the record layer around them is the harness. Overlapping (non-partition) fragment sets are out of this property's quantifier and are exercised under C08. End-to-end reassembly under reordering is exercised by C02's small-MTU variants.",
+   text="The real sender-side fragmentation and the real reassembly buffer are joined by a one-link simulated network that reorders, duplicates and interleaves fragments; every partition x permutation x single duplicate is enumerated for short messages, longer multi-message cases are sampled (MTU 1..1500, lengths to 20000, zero-length fragments, several fragments per record). A bitmap reassembler decides after every arrival what may and must surface. A quarter of the sampled runs are whole small-MTU handshakes under reordering and duplication without loss, which must complete.",
+   note="Component-level arena: the fragment buffer and Conn.fragmentHandshake run real code, the record layer around them is the harness; the end-to-end arena covers the Conn code between record layer and buffer. Overlapping (non-partition) fragment sets are out of this property's quantifier and are exercised under C08.",
    technique="deterministic simulation: exhaustive permutation/duplication enumeration + seeded sampling against a reference reassembler"),
  "C16": dict(level="exploration", design="§5 C16",
    text="Close (1-4 concurrent callers), deadlines and cleartext fatal alerts are placed at every controller step of 13 handshake variants and 13 data-phase configurations (with and without a Write blocked in the transport), then sampled with expired deadlines, loss and yield-point schedules. Checks: every call returns, error classes, at most one and (where owed) exactly one close_notify on the wire, peer EOF, deadline timing, and no goroutine survives the bubble.",
